@@ -67,7 +67,7 @@ func streamIs(s *an.Term, want ...string) (bool, string) {
 
 type c02Facts struct {
 	acp, single, none, inRange map[bool]bool // polarity seen
-	unknown                  []string
+	unknown                    []string
 }
 
 // classify143 reads the path condition: which hash-type tests were taken.
